@@ -1,4 +1,4 @@
 SPECIFICATION Spec
-CONSTANTS MaxDepth = 3 Sel = "full" WNeg = 2 WHi = 2 K = 3 Full2 = TRUE
+CONSTANTS MaxDepth = 3 Sel = "full" WNeg = 2 WHi = 2 K = 3 Full2 = FALSE
 INVARIANTS Inv_StateOK Inv_Clauses Inv_Total
 CHECK_DEADLOCK FALSE
